@@ -104,6 +104,7 @@ def check_case(ctx, case, steps, msteps):
                 if "died" in cli:
                     raise common.InfraError("command-line child died: %s" % (cli["died"],))
                 ctx.hist("cli dry %s/%s" % (cmd["op"], "rc=%s" % cli["rc"] if cli["exc"] is None else cli["exc"]))
+                ctx.hist("cli class %s:%s" % ("undeclare" if cmd["op"] == "unassignTag" else cmd["op"], cmd.get("cli_class") or "plain"))
                 ctx.hist("cli dry says something" if cli["would"] else "cli dry says nothing")
                 ctx.hist("cli dry took locks" if cli.get("locks") else "cli dry took no lock")
                 if not cli["hash_same"] or cli["writes"] or cli["calls"]:
@@ -148,8 +149,11 @@ def gen_case(rng):
     h = lib_db.gen_history(rng, rng.randint(4, 20), noaction=0.0, remove=0.12, direct_tag=0.05)
     c = with_twins(h)
     for t in c["cmds"]:
-        if t.get("twin") and rng.random() < 0.3:
+        if t.get("twin") and rng.random() < 0.5:
             t["cli"] = True            # also as the user types it: eups <command> -n ...
+            t["cli_class"] = rng.choice(lib_db.CLI_CLASSES[t["op"]])     # ... with an unusual-but-legal or refused option combination
+            if rng.random() < 0.3:
+                t["spell"] = [rng.randrange(4) for _ in range(lib_db.NSTACKS)]
     return c
 
 
@@ -173,6 +177,11 @@ def run(ctx):
     dry = sum(v for k, v in ctx.histogram.items() if k.startswith("dry "))
     if ctx.evaluations > 20 and dry < 3 * ctx.evaluations:
         raise common.InfraError("degenerate distribution: %d dry runs in %d histories" % (dry, ctx.evaluations))
+    if ctx.evaluations > 60 and not ctx.failures:
+        want = set("%s:%s" % ("undeclare" if op == "unassignTag" else op, c) for op, cs in lib_db.CLI_CLASSES.items() for c in cs)
+        low = sorted(k for k in want if ctx.histogram.get("cli class " + k, 0) < 2)
+        if low:
+            raise common.InfraError("degenerate distribution: command-line option classes (almost) never generated: %s" % low)
     cli = sum(v for k, v in ctx.histogram.items() if k.startswith("cli dry ") and "/" in k)
     if ctx.evaluations > 40 and cli < ctx.evaluations // 2:
         raise common.InfraError("degenerate distribution: %d dry runs through the command line in %d histories" % (cli, ctx.evaluations))
